@@ -74,6 +74,11 @@ pub fn drive_c07(a: &Args, out: &mut Out) {
     for i in 0..nhard {
         pairs.push(hard_gap_pair(&mut rng, 2 + i % 3, if thorough { 40 } else { 24 }));
     }
+    // the same with gaps that are expensive compared with N+M (an exact diff of one gap costs
+    // far more than the few multiples of N+M allowed after expiry)
+    for i in 0..(if thorough { 12 } else { 3 }) {
+        pairs.push(hard_gap_pair(&mut rng, 3 + i % 2, 110));
+    }
     for (i, (x, y)) in pairs.iter().enumerate() {
         let small = x.len() + y.len() <= 8;
         for alg in ALGS {
